@@ -8,6 +8,10 @@ def gen(rng, tier):
     n = 150 if tier == "quick" else 4000
     for i in range(n):
         locs, rems = ["La", "Lb"], ["Ra.1", "Ra.2", "Rb.1"]
+        if i % 4 == 3:
+            # addresses as long as IPv6 link-local ones with a zone: remote addresses that differ only in their last characters
+            locs = ["[fe80--1c3a-9bff-fe12-3456%eth0].51826", "[fe80--1c3a-9bff-fe12-3456%wlan0].51826"]
+            rems = ["[fe80--1c3a-9bff-fe65-4321%eth0].49152", "[fe80--1c3a-9bff-fe65-43ff%eth0].50000", "[fe80--1c3a-9bff-fe65-4321%eth0].49153"]
         live, replaced, ops = {}, set(), []
         nxt = 1
         for _ in range(rng.randrange(3, 14)):
